@@ -1,4 +1,5 @@
 import SasLexer.Lex.Main
+import SasLexer.Script
 import SasLexer.Spec.Basic
 import SasLexer.Spec.C01
 import SasLexer.Spec.C06
@@ -110,6 +111,14 @@ def main (args : List String) : IO UInt32 := do
       match srcOfHexLine line with
       | some s => (modelDump cfg s).format
       | none => "badinput"
+    return 0
+  | ["script", d, m] =>
+    let cfg := cfgOf d m
+    loopLines stdin stdout (scriptLine cfg)
+    return 0
+  | ["bufscript", d] =>
+    let cfg := cfgOf d "0"
+    loopLines stdin stdout (bufScriptLine cfg)
     return 0
   | ["check"] =>
     loopLines stdin stdout checkLine
